@@ -160,6 +160,17 @@ def candidate_template(n):
     return tmpl.of_expr(n)
 
 
+def _joined_operand(a):
+    """the list behind `map(str, L)` / `(str(x) for x in L)` / `[str(x) for x in L]` (each element written with str()), else a"""
+    if isinstance(a, ast.Call) and isinstance(a.func, ast.Name) and a.func.id == "map" and len(a.args) == 2 and norm(a.args[0]) == "str":
+        return a.args[1]
+    if isinstance(a, (ast.GeneratorExp, ast.ListComp)) and len(a.generators) == 1 and not a.generators[0].ifs and isinstance(a.generators[0].target, ast.Name):
+        v = a.generators[0].target.id
+        if norm(a.elt) in (f"str({v})", v):
+            return a.generators[0].iter
+    return a
+
+
 def find_emitters(ctx, rule):
     """All emitters of the program, located by shape: a template with >= 11 tab separators whose
     holes read >= 6 schema attributes of one record variable."""
@@ -186,7 +197,7 @@ def find_emitters(ctx, rule):
         if not recs:
             continue
         # list displays that are later joined with tabs: cols = [...]; "\t".join(cols)
-        joined_names = {norm(c.args[0]) for c in walk_own(f.node) if isinstance(c, ast.Call) and isinstance(c.func, ast.Attribute) and c.func.attr == "join" and const_value(c.func.value) == "\t" and c.args and isinstance(c.args[0], ast.Name)}
+        joined_names = {norm(_joined_operand(c.args[0])) for c in walk_own(f.node) if isinstance(c, ast.Call) and isinstance(c.func, ast.Attribute) and c.func.attr == "join" and const_value(c.func.value) == "\t" and c.args and isinstance(_joined_operand(c.args[0]), ast.Name)}
         list_joined = [st.value for st in walk_own(f.node) if isinstance(st, ast.Assign) and isinstance(st.value, ast.List) and isinstance(st.targets[0], ast.Name) and st.targets[0].id in joined_names]
         # candidate 12-column templates
         for n in walk_own(f.node):
